@@ -714,7 +714,10 @@ class Interp:
             for e, x in zip(target.elts, items):
                 self.assign(e, x, env)
         elif isinstance(target, ast.Attribute):
-            self.setattr(self.eval(target.value, env), target.attr, v)
+            name = target.attr
+            if name.startswith("__") and not name.endswith("__") and self._enclosing_class():
+                name = f"_{self._enclosing_class().lstrip('_')}{name}"
+            self.setattr(self.eval(target.value, env), name, v)
         elif isinstance(target, ast.Subscript):
             from .builtins_model import setitem
             setitem(self, self.eval(target.value, env), self.eval_index(target.slice, env), v)
@@ -885,7 +888,27 @@ class Interp:
             return self.resolve_global(env.module, e.id)
 
     def e_Attribute(self, e, env):
-        return self.getattr(self.eval(e.value, env), e.attr, e)
+        v = self.eval(e.value, env)
+        name = e.attr
+        if name.startswith("__") and not name.endswith("__") and isinstance(v, SymObj):
+            # private name mangling of class bodies: self.__x is self._Class__x; a method defined as __m is looked up by its source name
+            cls = self._enclosing_class()
+            if cls:
+                mangled = f"_{cls.lstrip('_')}{name}"
+                if mangled in v.attrs:
+                    return v.attrs[mangled]
+                if v.cls and v.module and source.find_method(v.module, v.cls, name) is not None:
+                    return self.getattr(v, name, e)
+                return self.getattr(v, mangled, e)
+        return self.getattr(v, name, e)
+
+    def _enclosing_class(self):
+        for q in reversed(self.callstack):
+            head = q.split(".")[0]
+            if "." in q and head and head[0].isupper():
+                return head
+            break
+        return None
 
     def e_Tuple(self, e, env):
         return tuple(self._elts(e.elts, env))
